@@ -210,7 +210,7 @@ def execute(sc, ctx):
         out.nontrivial = True
     fs = SimFS()
     done = {}
-    cap = 40000 if sc.get('_tier') == 'thorough' else 5000
+    cap = 9000 if sc.get('_tier') == 'thorough' else 5000      # the pretty printer dumps the whole stack per step: quadratic output, minutes and gigabytes beyond this
     # size gate on a *separately built* twin (no history added to the module under test)
     try:
         twin, _ = _p.materialise(dict(sc, recipe=recipe) if recipe is not None else sc)
